@@ -154,3 +154,15 @@ Definition stmt_C14_maps_in_range : Prop :=
   forall t, decompress_table = Some t -> forall cp, cp < rune_limit ->
     match tolower t cp with Some l => l < rune_limit | None => False end.
 Definition stmt_C14_maps_in_range_refuted : Prop := ~ stmt_C14_maps_in_range.
+
+(* a few facts that no version of the UCD can change (blocks are never moved, U+4E00 is the first CJK
+   unified ideograph, the Kelvin sign folds to k): the shipped tables get them wrong *)
+Definition chk_spot (t : ucd_table) : bool :=
+  match query t 65, query t 19968, tocasefold t 8490 with
+  | Some ra, Some rh, Some fk =>
+      (rec_block ra =? blktype_Basic_Latin) && (rec_script rh =? sctype_Han) && (rec_eaw rh =? eawtype_W) &&
+      (Z.eqb (rec_cwidth rh) 2) && (fk =? 107)
+  | _, _, _ => false
+  end.
+Definition stmt_C14_spot_facts : Prop := forall t, decompress_table = Some t -> chk_spot t = true.
+Definition stmt_C14_spot_facts_refuted : Prop := ~ stmt_C14_spot_facts.
